@@ -31,6 +31,7 @@ import PandoraModel.Model.Locality
 import PandoraModel.Model.Blocks
 import PandoraModel.Model.Interp
 import PandoraModel.Model.Confidence
+import PandoraModel.Model.Multiscale
 
 /-! ## the criteria model fed with the matching-cost model (moved from `Properties/C04C02.lean`) -/
 
@@ -347,6 +348,72 @@ def volumeOf (rows cols : Nat) (R : Nat → Nat → List Val) : Confidence.Volum
 def ambiguityOf (etas : List Rat) (normalization : Bool) (x : MC.Input) (R : Nat → Nat → List Val) :
     Option (Grid Val) :=
   Confidence.ambiguityBand etas normalization 1 (volumeOf x.L.rows x.L.cols R)
+
+/-! ## the memoised evaluation the driver uses: every stage is tabulated on the image once and read back
+    (`Properties/C13RunMemo.lean`: it equals the literal run) -/
+
+/-- the two maps tabulated on the `rows × cols` image and read back (outside the image: NaN / 0) -/
+def Maps.memo (rows cols : Nat) (m : Maps) : Maps :=
+  let gd := Blocks.tabulate rows cols m.disp
+  let gf := Blocks.tabulate rows cols m.flag
+  ⟨fun r c => (gd.getD r []).getD c .nan, fun r c => (gf.getD r []).getD c 0⟩
+
+/-- the tail with every intermediate map memoised -/
+def afterTailMemoFrom (K : RunCfg) (x : MC.Input) (R : Nat → Nat → List Val) : List TailStep → Maps → Option Maps
+  | [], m => some m
+  | s :: rest, m =>
+    ((tailStep K x R m s).map (Maps.memo x.L.rows x.L.cols)).bind (afterTailMemoFrom K x R rest)
+
+def afterTailMemo (K : RunCfg) (x : MC.Input) (R : Nat → Nat → List Val) (tail : List TailStep) : Option Maps :=
+  afterTailMemoFrom K x R tail (Maps.memo x.L.rows x.L.cols ⟨wtaMapR K x R, C04C02.composedMask x⟩)
+
+/-- `extRunR` on the memoised tails (the cross-checks and the filling are those of `extRunR`) -/
+def extRunMemo (K K' : RunCfg) (tail tail' : List TailStep) (V : CrossCheck.Variant) (CP CP' : CrossCheck.Params)
+    (F : FillCfg) (x : MC.Input) (R R' : Nat → Nat → List Val) : Option (Interp.DMap × Interp.DMap) :=
+  match afterTailMemo K x R tail, afterTailMemo K' (swapInput x) R' tail' with
+  | some A, some B =>
+    let rows := x.L.rows
+    let cols := x.L.cols
+    let lr := CrossCheck.validationRun V CP CP' (leftDataset rows cols A) (leftDataset rows cols B)
+    some (fillOf F (dmapOfOut rows cols lr.1), fillOf F (dmapOfOut rows cols lr.2))
+  | _, _ => none
+
+/-- the two bands (risk_max, risk_min) of a `cost_volume_confidence` step with method `risk` on the cost rows -/
+def riskOf (etas : List Rat) (x : MC.Input) (R : Nat → Nat → List Val) : Option (Grid (Val × Val)) :=
+  Confidence.computeRisk etas (volumeOf x.L.rows x.L.cols R)
+
+/-- the two bands (inf, sup) of a `cost_volume_confidence` step with method `interval_bounds` (no regularization) for a
+    "min" measure, possibility threshold `thr`, on the cost rows; `disps`: the disparity samples -/
+def boundsOf (thr : Rat) (disps : List Rat) (x : MC.Input) (R : Nat → Nat → List Val) : Option (Grid (Val × Val)) :=
+  Confidence.computeBounds false thr disps (volumeOf x.L.rows x.L.cols R)
+
+/-! ## the two-scale run: coarse chain, next-level interval grids (C15), fine chain on per-pixel grids -/
+
+/-- an interval grid of the multiscale model as a per-pixel grid of the matching-cost input (0 outside, NaN never
+    occurs: `nextLevelGrids` puts the user interval on border and invalid pixels) -/
+def gridFn (g : Grid Val) : Int → Int → Int := fun r c =>
+  if r < 0 ∨ c < 0 then 0
+  else match (g.getD r.toNat []).getD c.toNat .nan with
+    | .num q => q.floor
+    | .nan => 0
+
+/-- the fine-level input: the fine images with the per-pixel interval grids computed from the coarse level -/
+def fineInputOf (xf : MC.Input) (g : Grid Val × Grid Val) : MC.Input :=
+  { xf with dminG := gridFn g.1, dmaxG := gridFn g.2 }
+
+/-- **Two scales** (`multiscale` with `fixed_zoom_pyramid`, `num_scales = 2`): the coarse chain `matching cost →
+    winner-takes-all → tail` on the coarse pair `xc` (its images are an input: the Gaussian pyramid is not modelled), the
+    interval grids of the next level (`Multiscale.nextLevelGrids`, C15: window min − marge / max + marge of the valid
+    coarse disparities, user interval elsewhere, `zoom(order = 0)`, times the factor, cropped to the fine image), then the
+    same chain on the fine pair with these per-pixel grids (`mkK`: the configuration of a chain from its input — the
+    disparity samples depend on the global range of the grids).  Result: coarse maps, grids, fine input, fine maps. -/
+def twoScaleRun (mkK : MC.Input → RunCfg) (tail : MC.Input → List TailStep) (marge f : Nat) (umin umax : Rat)
+    (xc xf : MC.Input) : Option (Maps × (Grid Val × Grid Val) × MC.Input × Option Maps) :=
+  (afterTailMemo (mkK xc) xc (costRow (mkK xc) xc) (tail xc)).map fun mc =>
+    let g := Multiscale.nextLevelGrids (Blocks.tabulate xc.L.rows xc.L.cols mc.disp)
+      (Blocks.tabulate xc.L.rows xc.L.cols mc.flag) xc.w marge f umin umax xf.L.rows xf.L.cols
+    let xf' := fineInputOf xf g
+    (mc, g, xf', afterTailMemo (mkK xf') xf' (costRow (mkK xf') xf') (tail xf'))
 
 /-! ## decidable forms of the hypotheses of `run_crop_eq_whole` (new; `Properties/C13RunBool.lean` proves that they
     imply the hypotheses) -/
